@@ -249,6 +249,64 @@ def run(R):
             if got != ref_entry:
                 R.counterexample('class-entry-point', f'class-parameter:outcome-changes @ {nm}', {'parameters': list(pn)},
                                  'the outcomes of the same class with parameters alpha, beta', [x for x, y in zip(got, ref_entry) if x != y][:3] if isinstance(got, list) else got)
+    # the objects a renamed grammar returns are used through the documented API (transform rebuilding parents, _replace,
+    # _asdict, ==, hash, repr, deepcopy): the outcomes are those of the plain names, field for field
+    import copy as _copy
+    OBJ_TPL = 'class @Cls@ { @f1@: Leaf; @f2@: /\\d/*; @f3@: Leaf? }\nclass Leaf { v: /[ab]/ }\nstart = @Cls@+\n'
+
+    def dump(x, order):
+        if isinstance(x, (list, tuple)):
+            return [type(x).__name__] + [dump(y, order) for y in x]
+        if hasattr(x, '_fields'):
+            pi = getattr(getattr(x, '_metadata', None), 'position_info', None)
+            return ['obj', order.get(type(x).__name__, type(x).__name__), [dump(getattr(x, f), order) for f in x._fields],
+                    None if pi is None else (tuple(pi.start), tuple(pi.end))]
+        return x
+
+    def api_outcomes(names):
+        desc = instantiate(OBJ_TPL, names)
+        g = Grammar(desc)
+        order = {names['Cls']: 0, 'Leaf': 1}
+        cls = getattr(g, names['Cls'])
+        outs = []
+        for text in ('a1b', 'a12ab2', 'b'):
+            tree = g.parse(text)
+            steps = [
+                ('transform-rebuild', lambda: g.transform(tree, lambda n: g.Leaf('x') if isinstance(n, g.Leaf) else n)),
+                ('transform-identity', lambda: g.transform(tree, lambda n: n)),
+                ('replace-first', lambda: tree[0]._replace(**{names['f1']: g.Leaf('y')})),
+                ('replace-second', lambda: tree[0]._replace(**{names['f2']: ['9']})),
+                ('replace-none', lambda: tree[0]._replace()),
+                ('asdict-values', lambda: list(tree[0]._asdict().values())),
+                ('eq', lambda: tree[0] == cls(g.Leaf(text[0]), list(tree[0]._asdict().values())[1], tree[0]._asdict()[names['f3']])),
+                ('hash-eq', lambda: hash(tree[0]) == hash(_copy.deepcopy(tree[0]))),
+                ('deepcopy', lambda: _copy.deepcopy(tree)),
+                ('repr', lambda: repr(tree).replace(names['Cls'], 'C').replace(names['f1'] + '=', 'F1=').replace(names['f2'] + '=', 'F2=').replace(names['f3'] + '=', 'F3=')),
+                ('visit', lambda: [dump(n, order) for n in g.visit(tree)][:6]),
+            ]
+            for label, f in steps:
+                try:
+                    outs.append((text, label, repr(dump(f(), order))))
+                except Exception as e:          # noqa
+                    outs.append((text, label, 'exception ' + type(e).__name__ + ': ' + str(e)[:60]))
+        return outs
+    ref_api = api_outcomes(PLAIN)
+    for k in ('f1', 'f2', 'f3'):
+        for b in SCRATCH + BUILTINS[:8] + ['value1', 'item1', 'field', 'left', 'right', 'state', 'values', 'items', 'keys', 'update', 'get', 'position_info']:
+            names = {**PLAIN, k: b}
+            if len(set(names[x] for x in ('f1', 'f2', 'f3'))) != 3:
+                continue
+            R.count('object-api', (k, b), nontrivial=True)
+            try:
+                got = api_outcomes(names)
+            except Exception as e:              # noqa
+                got = [('', 'construction-or-parse', 'exception ' + type(e).__name__ + ': ' + str(e)[:80])]
+            if got != ref_api:
+                d = next(((x, y) for x, y in zip(got, ref_api) if x != y), (got[:1], ref_api[:1]))
+                R.counterexample('object-api', f'field-name:api-outcome-changes @ {b}', {'grammar': instantiate(OBJ_TPL, names), 'field': k, 'renamed_to': b},
+                                 d[1], d[0])
+            else:
+                R.traces += 1
     # module level: a name the generator defines on its own account must not have the shape of a name DERIVED from a
     # user name (X, _parse_X, _try_X with X a user identifier), whatever the user names are
     ident = re.compile(r'[A-Za-z][A-Za-z0-9_]*$')
@@ -275,5 +333,5 @@ def run(R):
         rule='six grammar templates (lets, class fields incl. let fields, template parameters, loops that allocate temporaries, counts and '
              'predicates, an operator table) x renamings of one identifier at a time into temporaries-lookalikes (<base><n> for every '
              'temporary base name), runtime scratch names, builtins, constructor names, plus fresh random identifiers for all; the '
-             'renamed grammar must give the outcomes of the plain one on every input; static scan of the emitted source',
+             'renamed grammar must give the outcomes of the plain one on every input; static scan of the emitted source; results of grammars with renamed class fields used through transform, _replace, _asdict, ==, hash, repr, deepcopy, visit',
         checker_cmd='cd /verif/coq && make -f Makefile.coq && coqc -R . SV Props/C20.v')
